@@ -133,7 +133,52 @@ def job_tuner(res, fs, f, frames):
         xv = [0.0] * (2 * n); xv[2 * wk] = 1.0
         cex(xv, f'{label}: sample {wk} is not multiplied by exp(2*pi*i*f*k/fs) (deviation {float(worst):.3g})', f'tuner:phase:{"fractional" if float(f) != int(f) else "integer"}')
 
-JOBFNS = {'hilbert': job_hilbert, 'hfilt': job_hfilt, 'tuner': job_tuner}
+def o_tuner_at(spec, r, extra):
+    fs, f, k = spec[0][1], spec[1][1], spec[2][1]
+    if r['status'] != 'ok' or r['ret'] == H_THROW: return True, f"Tuner(fs={fs}, f={f}): {r['status']} / threw {r.get('stderr', '')[-300:]}"
+    w = mpmath.expjpi(mpmath.mpf(2) * mpmath.mpf(f) * k / fs); y = r['outs'][-1]
+    return abs(y[0] - float(w.real)) + abs(y[1] - float(w.imag)) > 1e-6, f"Tuner(fs={fs}, f={f}): unit sample {k} comes out as ({y[0]!r}, {y[1]!r}), exp(2*pi*i*f*k/fs) = ({float(w.real)!r}, {float(w.imag)!r})"
+ORACLES['tuner_at'] = o_tuner_at
+def job_tuner_step(res, f, fsmax, ground=None):
+    """one sample from an arbitrary counter state: fs and the sample counter are 32-bit bit-vectors (2|f| <= fs <= fsmax, 0 <= counter < fs), the sample symbolic: no integer overflow / conversion UB on any path,
+    the counter advances modulo fs. ground=(fs, counter): the same step executed concretely, output compared with exp(2*pi*i*f*k/fs)."""
+    mod, so = load(HARNESS)
+    if ground:
+        fs, ph = ground; m = Machine(mod); label = f'Tuner(fs={fs}, f={f}) one sample at counter {ph}'
+        spec = [('i32', fs), ('f64', f), ('i32', ph), ('f64', 1.0), ('f64', 0.0), ('pf64', [0.0] * 3)]
+        try: r, outs, _ = sym_call(m, 'h_tuner_step', spec, 'i32'); st = 'ret'
+        except (Throw, UB) as e: st = f'{type(e).__name__} {str(e)[:160]}'; outs = None
+        res.absorb(m); w = mpmath.expjpi(mpmath.mpf(2) * mpmath.mpf(f) * ph / fs)
+        ok = st == 'ret' and not m.ub_found and abs(outs[-1][0] - float(w.real)) + abs(outs[-1][1] - float(w.imag)) <= 1e-6
+        sol = z3.Solver(); sol.add(z3.Not(z3.BoolVal(bool(ok))))
+        if timed_check(sol, res) == z3.unsat: res.ob(True, 'ground', f'{label}: exp(2*pi*i*f*k/fs) within 1e-6, no integer overflow on the way')
+        else:
+            why = f'{label}: {st}' + (f'; UB {str(m.ub_found[0][:2])[:200]}' if m.ub_found else '') + (f'; got {outs[-1][:2]}' if outs else '')
+            if not confirm(res, PID, HARNESS, 'h_tuner_at', [('i32', fs), ('f64', f), ('i32', ph), ('pf64', [0.0, 0.0])], 'i32', 'tuner_at', ORACLES, 'tuner:step:large-fs', why, timeout=300, suspect_is_inconclusive=not m.ub_found):
+                if m.ub_found: confirm(res, PID, HARNESS, 'h_tuner_at', [('i32', fs), ('f64', f), ('i32', ph), ('pf64', [0.0, 0.0])], 'i32', 'tuner_at', ORACLES, 'tuner:step:large-fs', why, timeout=600, san=True)
+        return
+    FS = bvsym('fs', 32); PH = bvsym('ph', 32); lo = max(2, int(math.ceil(2 * abs(f)))); label = f'Tuner(fs in [{lo}, {fsmax}], f={f}) one sample from any counter state'
+    def setup(m):
+        m.assume(z3.And(FS.e >= lo, FS.e <= fsmax, PH.e >= 0, PH.e < FS.e)); o = m.alloc_doubles([0.0] * 3, 'o'); return [FS, f, PH, fsym('xr'), fsym('xi'), o], o
+    for p in explore(mod, '@h_tuner_step', setup, max_paths=16):
+        if p.out not in ('ret',): res.absorb(p.m) if p.m else None; res.inc(f'{label}: path {p.out} {str(p.err)[:160]}'); continue
+        res.absorb(p.m)
+        if p.m.ub_found:
+            kind, msg, mdl, where = p.m.ub_found[0]; fsv = model_int(mdl, 'fs'); phv = model_int(mdl, 'ph')
+            why = f'{label}: undefined behaviour ({kind}: {msg[:120]} at {where[:120]}) for fs={fsv}, counter={phv}'
+            spec = [('i32', fsv), ('f64', f), ('i32', phv), ('pf64', [0.0, 0.0])]
+            if not confirm(res, PID, HARNESS, 'h_tuner_at', spec, 'i32', 'tuner_at', ORACLES, 'tuner:step:ub', why, timeout=600, suspect_is_inconclusive=False):
+                confirm(res, PID, HARNESS, 'h_tuner_at', spec, 'i32', 'tuner_at', ORACLES, 'tuner:step:ub', why, timeout=900, san=True)
+            continue
+        res.ob(True, 'BV', f'{label}: path |pc|={len(p.m.pc)}: no signed overflow / invalid conversion for every (fs, counter) on the path')
+        nxt = z3.If(PH.e + 1 == FS.e, z3.BitVecVal(0, 32), PH.e + 1); sol = z3.Solver(); sol.set('timeout', 60000); sol.add(*p.m.pc); sol.add(bve(p.ret, 32) != nxt); c = sol.check(); res.queries += 1
+        if c == z3.unsat: res.ob(True, 'BV', f'{label}: path |pc|={len(p.m.pc)}: the counter advances to (counter + 1) mod fs')
+        elif c == z3.sat:
+            mdl = model_dict(sol); fsv = model_int(mdl, 'fs'); phv = model_int(mdl, 'ph')
+            confirm(res, PID, HARNESS, 'h_tuner_at', [('i32', fsv), ('f64', f), ('i32', min(phv + 1, 2 ** 31 - 2)), ('pf64', [0.0, 0.0])], 'i32', 'tuner_at', ORACLES, 'tuner:step:counter', f'{label}: counter does not advance modulo fs (fs={fsv}, counter={phv})', timeout=600)
+        else: res.inc(f'{label}: counter update undecided')
+
+JOBFNS = {'hilbert': job_hilbert, 'hfilt': job_hfilt, 'tuner': job_tuner, 'tuner_step': job_tuner_step}
 
 def selftest(st):
     calls = [('h_hilbert', [('pf64', [math.sin(i) + 0.5 for i in range(n)]), ('i32', n), ('pf64', [0.0] * 2 * n)], 'i32') for n in (3, 4, 7, 8, 12)]
@@ -157,13 +202,19 @@ def main(tier, seed):
     for flen, tw in ([(31, 0.05), (16, 0.1)] if q else [(31, 0.05), (16, 0.1), (51, 0.01), (101, 0.02), (40, 0.08)]): jobs.append((f'HilbertFilter designed {flen}', 'hfilt', dict(taps=[], flen=flen, tw=tw, frames=(flen + 4, 3, 5)), 3000))
     for fs, f in ([(8, 1.0), (8, 0.5), (8, -2.5), (10, 3.0), (10, 0.25), (48, 7.0), (48, 0.5)] if q else [(8, 1.0), (8, 0.5), (8, -2.5), (8, 4.0), (10, 3.0), (10, 0.25), (10, -4.75), (48, 7.0), (48, 0.5), (48, 23.9), (100, 12.5)]):
         jobs.append((f'Tuner fs={fs} f={f}', 'tuner', dict(fs=fs, f=f, frames=(fs + 3, fs, fs + 2) if fs <= 10 else (fs + 5, fs // 2, fs)), 3000))
+    # Tuner, one sample from an arbitrary counter state: small-witness region first (counter-examples replay in milliseconds), then the full range of sample rates
+    for f in ((40000.0, -47999.75, 0.5) if q else (40000.0, -47999.75, 0.5, 1.0, 12345.678, -3.0e8 + 0.25)):
+        for fsmax in (1 << 18, 1 << 30):
+            if 2 * abs(f) <= fsmax: jobs.append((f'Tuner step f={f} fs<={fsmax}', 'tuner_step', dict(f=f, fsmax=fsmax), 1800))
+    for (f, fs, ph) in ([(40000.0, 96000, 95999), (-49999.0, 100000, 99999)] if q else [(40000.0, 96000, 95999), (40000.0, 96000, 53700), (-49999.0, 100000, 99999), (95999.5, 192000, 191999), (2.0 ** 29 - 0.25, 1 << 30, (1 << 30) - 1)]):
+        jobs.append((f'Tuner step ground fs={fs} f={f} k={ph}', 'tuner_step', dict(f=f, fsmax=fs, ground=(fs, ph)), 900))
     return run_property(PID, tier, HARNESS, jobs, JOBFNS,
         level_text='hilbert(x): executed once per length with all samples symbolic; z3 (QF_LRA) certifies the code as a fixed matrix which must equal IDFT.diag(1,2,...,2,[1],0,...,0).DFT (the analytic-signal '
                    'operator: real part = x, negative-frequency bins zero) within half of 64*n*eps; hilbert(x, n) against the same operator on the padded / truncated input. HilbertFilter: the real part of every '
                    'output is the very input term delayed by M/2 (bit-exact), custom and designed taps, three frames. Tuner: certified linear, sample k multiplied by exp(2*pi*i*f*k/fs) for every k up to ~3*fs, '
-                   'integer and fractional f, across three calls.',
+                   'integer and fractional f, across three calls; one sample from an arbitrary counter state with the sample rate and the counter as 32-bit bit-vectors (fs up to 2^30): no integer overflow / conversion UB on any path and the counter advances modulo fs (BV), plus ground steps at high sample rates compared with exp(2*pi*i*f*k/fs).',
         assumptions=['REAL arithmetic for the data path; cos/sin values are the doubles the real code computed (concrete arguments)', 'the 1e-3 quadrature accuracy of the designed Hilbert filter is a numeric property of concrete taps and is not decided'],
-        bounds={'hilbert': 'n = 3..32 quick / 3..96 without lengths that have a prime factor above 47 (43 and 47 kept)', 'Tuner': 'fs in {8,10,48,(100)}, about 3*fs samples, 3 calls', 'HilbertFilter': 'custom 5/7 taps, designed flen 16..101'},
-        outside=['quadrature accuracy over the pass-band', 'lengths above the bound'], seed=seed, selftest=selftest)
+        bounds={'hilbert': 'n = 3..32 quick / 3..96 without lengths that have a prime factor above 47 (43 and 47 kept)', 'Tuner': 'fs in {8,10,48,(100)}, about 3*fs samples, 3 calls; one-step jobs: every fs in [2|f|, 2^30], every counter in [0, fs), f in a list of 3 (6) values', 'HilbertFilter': 'custom 5/7 taps, designed flen 16..101'},
+        outside=['the rotation angle modulo 2*pi for arbitrary (fs, counter) above the enumerated sample rates (only overflow-freedom and the counter update are decided there)', 'quadrature accuracy over the pass-band', 'lengths above the bound'], seed=seed, selftest=selftest)
 
 def replay(path): return replay_main(path, ORACLES)
